@@ -199,12 +199,9 @@ func ruleC15CheckFirst(c *Ctx, r *R) {
 			return true, true
 		}
 		pf := &PF{N: 2}
-		pf.Edge = func(f *ssa.Function, b *ssa.BasicBlock, idx int, q int) (StateSet, bool) {
-			iff, ok := b.Instrs[len(b.Instrs)-1].(*ssa.If)
-			if !ok {
-				return 0, false
-			}
-			g := guard{cond: iff.Cond, val: idx == 0}
+		pf.Edge = func(f *ssa.Function, g guard, q int) (StateSet, bool) {
+		b := g.blk
+		_ = b
 			cf, ok := g.asCmp()
 			if !ok || cf.op != token.EQL {
 				return 0, false
